@@ -112,6 +112,7 @@ def run(run):
         for j in range(3):
             box['C%d%d' % (i, j)] = (-1, 1)
     rep = enga.AReport(run, box=box, consts=dict(enga.WGS84))
+    rep.definedness = True
     run.assume('claimed form: local consistency of the composed map (increment computation + one kernel step) with Newton\'s law in the Earth-fixed frame: no O(1) and no O(t) local defect for any state and any smooth signal, both sensor types. Consistency + Lipschitz stability => convergence (Dahlquist / Lax) is cited, not mechanised; the quantitative "<= small multiple of the change on halving" at finite 1..50 ms and rounding drift over long horizons are outside',
                'oracle uses the library\'s own geodesy functions lla_to_ecef, mat_en_from_ll, gravity_n, whose coherence with the ellipsoid is C16; the interval t is a formal parameter (the trig branch of mat_from_rotvec is not traversed here; its agreement with the Taylor branch is C17)',
                'attitude matrix is a free 3x3 matrix (the identities hold without orthonormality); ellipsoid constants E2, A, RATE, GE, GP symbolic; |lat| <= 85 deg, altitude -500..20000 m; exact real arithmetic',
